@@ -30,7 +30,8 @@ def scalar(r, strings=None):
     if k == 5:
         return r.choice([LIM, -LIM, 2**31, -2**31, 2**53, 1e16, 123456789])
     if k in (6, 7, 8):
-        return r.choice(strings or ["", "a", "b", "ab", "abc", "A", "\u00e9", "\U0001F600", "b\n", "1", "true"])
+        return r.choice(strings or ["", "a", "b", "ab", "abc", "A", "\u00e9", "\U0001F600", "b\n", "1", "true",
+                                    "e\u0301", "\u1100\u1161", "a\u0308b"])
     return r.choice(SCALARS)
 
 
